@@ -6,12 +6,53 @@ THEOREMS = ['C05_stamp', 'C05_sendall_appends', 'C05_failed_notice_sized', 'C05_
 CHECKERS = ['C05', 'C03']
 
 
+def directed(rng, tier):
+    """a send fails in the MIDDLE of a manager-originated broadcast (CLIENT_INFO, the periodic statistics, a failure
+    notice, an acknowledgement copy) while recipients are still to be served: the notices published from inside that
+    delivery (CLIENT_CLOSED, the error log) must not disturb the frames the later recipients get"""
+    from .. import mgr_common as C
+    out = []
+    triggers = ["ready", "setname", "timing", "traffic", "active", "drop", "ackcopy"]
+    for trig in triggers:
+        for lvl in (60, 40, 20):
+            hs = C.History(loglevel=lvl, timing=True, tag="broadcast-interrupted")
+            for _ in range(4):
+                hs.round([], [], 0, accept=True)
+            w = [1, 2, 3, 4]
+            hs.round([(1, hs.connect_v2(logger=1, mod_id=30))], w, 0)
+            hs.round([(1, hs.sub("sub", C.ALL))], w, 0)
+            hs.round([(2, hs.connect_v2(logger=1 if trig == "ackcopy" else 0, mod_id=31)),
+                      (3, hs.connect_v1(src_mod=32)), (4, hs.connect_v1(src_mod=33))], w, 0)
+            t = dict(ready="CLIENT_INFO", setname="CLIENT_INFO", timing="TIMING_MESSAGE", traffic="MESSAGE_TRAFFIC",
+                     active="ACTIVE_CLIENTS", drop="FAILED_MESSAGE", ackcopy=None)[trig]
+            if t:
+                hs.round([(2, hs.sub("sub", C.MT[t]))], w, 0)       # visited before the monitor (type-specific list first)
+            if trig == "drop":
+                hs.round([(4, hs.sub("sub", 100))], w, 0)
+            hs.fault(2, 0)
+            if trig == "ready":
+                hs.round([(3, hs.ready(4242))], w, 1)
+            elif trig == "setname":
+                hs.round([(3, hs.setname(b"renamed"))], w, 1)
+            elif trig == "drop":
+                hs.round([(3, hs.publish(100, b"zz", src_mod=32))], [1, 2, 3], 1)      # conn 4 not writable -> notice
+            elif trig == "ackcopy":
+                hs.round([(3, hs.sub("sub", 101))], w, 1)                               # ack copied to loggers 1 and 2
+            else:
+                hs.round([(3, hs.publish(101, b"x", src_mod=32))], w, 1)
+                hs.round([], w, 30)                                                      # periodic senders fire
+            hs.round([(3, hs.publish(102, b"after", src_mod=32))], [1, 3, 4], 31)
+            out.append(hs)
+    return out
+
+
 def run(chk: Check):
     mgr_check.run_property(
         chk, "C05", "Props.C05", THEOREMS,
         model_profiles={'routing': 200, 'faults': 160, 'periodic': 80, 'nested': 100},
         oracle_flavors={'routing': 160, 'drops': 160, 'stats': 60},
         checkers=CHECKERS,
+        extra_histories=directed,
         assumptions=['TCP preserves order per connection; a failing sendall writes nothing (all-or-nothing per call in the harness)'])
 
 
